@@ -289,3 +289,56 @@ def h_order5(b0: bool, b1: bool, b2: bool, b3: bool, b4: bool, b5: bool, b6: boo
             b18, b19]
     ok = _order_ok(5, bits)
     return hx.verdict(ok, any(bits))
+
+
+from django_evolution.mutations import MoveToDjangoMigrations
+from django_evolution.utils.evolutions import get_evolution_dependencies
+
+
+def h_evolution_deps(d_ae: bool, d_am: bool, d_be: bool, d_bm: bool, move: int, custom: bool) -> bool:
+    """get_evolution_dependencies: the dependencies of an evolution are the union of what its module
+    (or custom evolution entry) declares and what its mutations generate (MoveToDjangoMigrations
+    implies "after the migrations it marks as applied").
+
+    move: 0 no such mutation, 1 MoveToDjangoMigrations(), 2 MoveToDjangoMigrations(mark_applied=[two])
+    pre: 0 <= move <= 2
+    post: _
+    """
+    declared = {
+        'AFTER_EVOLUTIONS': [('vfa1', 'e1')] if d_ae else [],
+        'AFTER_MIGRATIONS': [('vfa1', '0002_more')] if d_am else [],
+        'BEFORE_EVOLUTIONS': ['vfa2'] if d_be else [],
+        'BEFORE_MIGRATIONS': [('vfa2', '0001_initial')] if d_bm else [],
+    }
+    muts = []
+    generated = set()
+    if move == 1:
+        muts = [MoveToDjangoMigrations()]
+        generated = set([('vfa0', '0001_initial')])
+    elif move == 2:
+        muts = [MoveToDjangoMigrations(mark_applied=['0001_initial', '0002_x'])]
+        generated = set([('vfa0', '0001_initial'), ('vfa0', '0002_x')])
+    specs = [{'labels': ['e1'], 'app_deps': {}, 'evo_deps': {}} for _i in range(N_APPS)]
+    custom_evolutions = []
+    if custom:
+        # no module for e1 of app 0: the custom-evolution entry carries everything
+        specs[0]['labels'] = []
+        custom_evolutions = [{
+            'label': 'e1', 'mutations': muts,
+            'after_evolutions': declared['AFTER_EVOLUTIONS'], 'after_migrations': declared['AFTER_MIGRATIONS'],
+            'before_evolutions': declared['BEFORE_EVOLUTIONS'], 'before_migrations': declared['BEFORE_MIGRATIONS'],
+        }]
+    else:
+        specs[0]['evo_deps']['e1'] = dict((k, v) for k, v in declared.items() if v)
+    with _FakeApps(specs) as fa:
+        if not custom:
+            sys.modules['vfa0.evolutions.e1'].MUTATIONS = muts
+        deps = get_evolution_dependencies(app=fa.apps[0], evolution_label='e1',
+                                          custom_evolutions=custom_evolutions)
+    ok = deps is not None
+    if ok:
+        ok = (set(deps['after_evolutions']) == set(declared['AFTER_EVOLUTIONS']) and
+              set(deps['after_migrations']) == set(declared['AFTER_MIGRATIONS']) | generated and
+              set(deps['before_evolutions']) == set(declared['BEFORE_EVOLUTIONS']) and
+              set(deps['before_migrations']) == set(declared['BEFORE_MIGRATIONS']))
+    return hx.verdict(ok, bool(move) or d_ae or d_am or d_be or d_bm)
